@@ -43,6 +43,17 @@ def step (s : St) : Op → St
 
 def run (s : St) (ops : List Op) : St := ops.foldl step s
 
+/-- the collector's `alive.remove(&id).unwrap()`: `true` iff every waiting record is still registered (otherwise the
+    collector task panics, and with `panic = abort` the process dies) -/
+def gcTickSafe (s : St) : Bool := s.gcList.all (fun i => s.alive.contains i)
+
+/-- what the management API reads (`GET /api/live`, `/api/history`): a pure function of the state -/
+def apiLive (s : St) : List Nat := s.alive.filter (fun i => !s.gcList.contains i)
+def apiHistory (s : St) : List Nat := s.terminated
+
+/-- the variant of seeded change C16c: the `/api/live` handler also prunes the dead entries from `alive` -/
+def apiLivePruning (s : St) : St := { s with alive := s.alive.filter (fun i => !s.gcList.contains i) }
+
 /-- the connections that exist right now: what `GET /live` lists (`Weak::upgrade` succeeds) -/
 def live (s : St) : List Nat := s.alive.filter (fun i => !s.gcList.contains i)
 
